@@ -30,9 +30,10 @@ func wdRunGuards(c *hx.Ctx) {
 		desc := map[string]any{
 			"site": s.ID, "kind": s.Kind, "object": s.Obj, "op": s.Op, "fresh": s.Fresh,
 			"must_held_write": s.HeldW, "must_held_read": s.HeldR,
-			"where":     fmt.Sprintf("%s:%d:%d", s.File, s.Line, s.Col),
-			"function":  s.Func,
-			"signature": fmt.Sprintf("write-discipline:%s:%s:%s", s.Kind, s.Obj, s.Func),
+			"where":                 fmt.Sprintf("%s:%d:%d", s.File, s.Line, s.Col),
+			"least_held_call_chain": s.Chain,
+			"function":              s.Func,
+			"signature":             fmt.Sprintf("write-discipline:%s:%s:%s", s.Kind, s.Obj, s.Func),
 		}
 		cw.Add(hx.App("Guards_corr.CSite", s.Tuple(r)), s.Kind+":"+s.Obj, !s.Fresh, desc)
 		index = append(index, map[string]any{"site": s.ID, "where": fmt.Sprintf("%s:%d", s.File, s.Line), "function": s.Func, "object": s.Obj})
